@@ -215,7 +215,7 @@ type Outcome struct {
 }
 
 func buildLibrary(sc *core.Scenario, ex *Extra) (*ast.KnowledgeLibrary, error) {
-	lib, err := esim.BuildLibrary(grl.PrintProgram(sc.Program))
+	lib, err := esim.BuildLibraryOf(sc.Program, sc.Knobs.SplitAt)
 	if err != nil {
 		return nil, err
 	}
